@@ -43,7 +43,7 @@ use tachys::{
 use vsexp::{Lst, Num, Sexp};
 
 // ------------------------------------------------------------------ executor with an exposed run queue
-mod exec {
+pub(crate) mod exec {
     use super::*;
     use any_spawner::{CustomExecutor, Executor, PinnedFuture, PinnedLocalFuture};
     type LocalFut = Pin<Box<dyn Future<Output = ()>>>;
@@ -155,7 +155,7 @@ mod exec {
 
 // ------------------------------------------------------------------ programs
 #[derive(Clone, Debug)]
-enum E {
+pub(crate) enum E {
     Sig(usize),
     Const(i64),
     Add(Box<E>, Box<E>),
@@ -172,7 +172,7 @@ enum V {
     Keyed(i64, usize, Vec<Vec<i64>>),
 }
 
-fn dec_expr(s: &Sexp) -> E {
+pub(crate) fn dec_expr(s: &Sexp) -> E {
     match s.at(0).num() {
         0 => E::Sig(s.at(1).num() as usize),
         1 => E::Const(s.at(1).num()),
@@ -199,20 +199,20 @@ fn dec_view(s: &Sexp) -> V {
     }
 }
 
-static LOG: Mutex<Vec<i64>> = Mutex::new(Vec::new());
-fn log(l: i64) {
+pub(crate) static LOG: Mutex<Vec<i64>> = Mutex::new(Vec::new());
+pub(crate) fn log(l: i64) {
     LOG.lock().unwrap().push(l);
 }
 /// log entry of the `on_cleanup` callback a text closure with label `l` registers on every run
-const CLEANUP: i64 = 500;
+pub(crate) const CLEANUP: i64 = 500;
 
 /// the futures of the async leaves, in creation order; `None` once completed
-static FUTURES: Mutex<Vec<(i64, Option<futures::channel::oneshot::Sender<()>>)>> = Mutex::new(Vec::new());
+pub(crate) static FUTURES: Mutex<Vec<(i64, Option<futures::channel::oneshot::Sender<()>>)>> = Mutex::new(Vec::new());
 thread_local! {
     /// fresh mounts: async leaves resolve at once
-    static FRESH: std::cell::Cell<bool> = const { std::cell::Cell::new(false) };
+    pub(crate) static FRESH: std::cell::Cell<bool> = const { std::cell::Cell::new(false) };
 }
-fn new_future(label: i64) -> Option<futures::channel::oneshot::Receiver<()>> {
+pub(crate) fn new_future(label: i64) -> Option<futures::channel::oneshot::Receiver<()>> {
     if FRESH.with(|r| r.get()) {
         return None;
     }
@@ -222,7 +222,7 @@ fn new_future(label: i64) -> Option<futures::channel::oneshot::Receiver<()>> {
 }
 /// `(l 0)`: the future of the latest run of closure `l` completes (if it is still outstanding);
 /// `(l 1)`: all outstanding futures of earlier runs of closure `l` complete (they were superseded)
-fn complete_of(label: i64, stale: bool) -> bool {
+pub(crate) fn complete_of(label: i64, stale: bool) -> bool {
     let mut f = FUTURES.lock().unwrap();
     let Some(last) = f.iter().rposition(|t| t.0 == label) else { return false };
     let mut txs = vec![];
@@ -246,7 +246,7 @@ fn complete_of(label: i64, stale: bool) -> bool {
 }
 /// complete the `k mod n`-th of the `n` outstanding futures (oldest first) created by the closure
 /// `label` (`None`: by any closure); false if none is left
-fn complete(label: Option<i64>, k: i64) -> bool {
+pub(crate) fn complete(label: Option<i64>, k: i64) -> bool {
     let mut f = FUTURES.lock().unwrap();
     let open: Vec<usize> = f
         .iter()
@@ -264,10 +264,10 @@ fn complete(label: Option<i64>, k: i64) -> bool {
     true
 }
 
-type Sigs = Arc<Vec<RwSignal<i64>>>;
+pub(crate) type Sigs = Arc<Vec<RwSignal<i64>>>;
 
 /// reads every signal of the expression (tracked)
-fn eval(e: &E, s: &Sigs) -> i64 {
+pub(crate) fn eval(e: &E, s: &Sigs) -> i64 {
     match e {
         E::Sig(i) => s.get(*i).map(|x| x.get()).unwrap_or(0),
         E::Const(n) => *n,
@@ -455,7 +455,7 @@ fn snap(n: &Node, prev: &HashMap<u64, u64>, with_status: bool, cur: &mut HashMap
     }
 }
 
-fn top(root: &Node, prev: &HashMap<u64, u64>, with_status: bool) -> (Sexp, HashMap<u64, u64>) {
+pub(crate) fn top(root: &Node, prev: &HashMap<u64, u64>, with_status: bool) -> (Sexp, HashMap<u64, u64>) {
     let mut cur = HashMap::new();
     let kids: Vec<Sexp> = root.children().iter().filter_map(|c| snap(c, prev, with_status, &mut cur)).collect();
     // every view renders to exactly one node; anything else is reported as a list
@@ -471,7 +471,7 @@ fn top(root: &Node, prev: &HashMap<u64, u64>, with_status: bool) -> (Sexp, HashM
 
 thread_local! {
     /// extended cases (async leaves / keyed lists): a snapshot is the list of the root's nodes
-    static EXT: std::cell::Cell<bool> = const { std::cell::Cell::new(false) };
+    pub(crate) static EXT: std::cell::Cell<bool> = const { std::cell::Cell::new(false) };
 }
 
 /// case `(view sigs steps)` or, extended, `(view sigs steps (drain))`: then a step is
@@ -480,6 +480,9 @@ thread_local! {
 /// the last step all outstanding futures are resolved (`drain` 0: oldest first, 1: newest first),
 /// which yields one more observation entry.
 pub fn run(c: &Sexp) -> Sexp {
+    if matches!(c.at(0), Num(7)) {
+        return crate::c04l::run(c);
+    }
     exec::init();
     exec::reset();
     LOG.lock().unwrap().clear();
@@ -562,7 +565,7 @@ pub fn run(c: &Sexp) -> Sexp {
     Lst(res)
 }
 
-fn strip_status(s: &Sexp) -> Sexp {
+pub(crate) fn strip_status(s: &Sexp) -> Sexp {
     if EXT.with(|e| e.get()) && !matches!(s.at(0), Num(_)) {
         return Lst(s.list().iter().map(strip_status).collect());
     }
